@@ -335,6 +335,9 @@ class C09(PropCheck):
                 # each generator frame is then read off the generator object
                 case["mode"] = "referents"
             out.append(case)
+            if not node.get("exiting") and not node.get("stack_exiting") and "mode" not in case and len(out) % 4 == 0:
+                # observed from the __enter__ of the NEXT manager the holder enters (nested statement, or next item of the same one)
+                out.append({"k": "tree", "node": json.loads(json.dumps(node)), "enter_probe": rng.choice(["nested", "item"])})
             if node["kind"] == "stack" and node["async"] and not node.get("stack_exiting") and len(out) % 3 == 0:
                 # observed from a synchronous callback that the exiting stack is running: the `async with` is exiting while its
                 # __aexit__ is executing, not suspended
@@ -355,13 +358,37 @@ class C09(PropCheck):
         running = node.get("stack_exiting_running", False)
         stack_exiting = node.get("stack_exiting", False) or running
 
+        enter_probe = bool(case.get("enter_probe")) and not (exiting or stack_exiting)
+
+        class Prober:
+            """Observes from inside its own __enter__: the holder's frame is executing, in the middle of entering the next with."""
+
+            def __enter__(s):
+                b.probe_result = stackscope.extract(co)
+                return s
+
+            def __exit__(s, *a):
+                return False
+
         if node["async"]:
             async def holder():
                 async with root as st:
-                    if not (exiting or stack_exiting):
+                    if enter_probe:
+                        with Prober():
+                            await trap()
+                    elif not (exiting or stack_exiting):
                         await trap()
                     elif node.get("exit_by") == "exception":
                         raise KeyError("leaving the block by exception")
+        elif enter_probe and case.get("enter_probe") == "item":
+            async def holder():
+                with root as st, Prober():          # the second item of the same statement
+                    await trap()
+        elif enter_probe:
+            async def holder():
+                with root as st:
+                    with Prober():
+                        await trap()
         else:
             async def holder():
                 with root as st:
@@ -387,7 +414,7 @@ class C09(PropCheck):
             stackscope.lowlevel.set_trickery_enabled(False)
         try:
             try:
-                s = b.probe_result if running else stackscope.extract(co)
+                s = b.probe_result if (running or enter_probe) else stackscope.extract(co)
             finally:
                 stackscope.lowlevel.set_trickery_enabled(None)
             f0 = s.frames[0]
